@@ -990,6 +990,14 @@ def f(xs: list[fp.Real], x: fp.Real) -> fp.Real:
     return acc
 ''', 'f', [('list', [0, 1, 2]), 'real'], ['semantics', 'enumerate', 'loop'])
 
+prog('sem_minmax_literal_zero', '''
+@fp.fpy
+def f(x: fp.Real, y: fp.Real) -> tuple[fp.Real, fp.Real, fp.Real, fp.Real, fp.Real, fp.Real]:
+    z = x - x
+    n = -z
+    return (max(n, 0), max(0, n), min(0, n), min(n, 0), max(y * 0, 0), min(0, y * 0, z))
+''', 'f', ['real', 'real'], ['semantics', 'minmax'])
+
 # ---- analysis facts (C13 / C14 part 2) ----------------------------------------------------------------------------
 prog('vc_underflow_product', '''
 @fp.fpy
@@ -1175,6 +1183,44 @@ def f(x: fp.Real) -> fp.Real:
     t = g(x, bump(ys))
     return ys[0] + t
 ''', 'f', ['real'], ['inline', 'order', 'alias', 'no_ref', 'no_analysis'])
+
+
+# ---- analysis shapes reported against the unmodified tree by the C13 seeding agent -------------------------------------------
+prog('pe_nested_while_stale_cond', '''
+@fp.fpy(ctx=fp.REAL)
+def f(n: int, x: fp.Real) -> fp.Real:
+    i = 0
+    out = x
+    while i < n:
+        k = i
+        t = 0
+        while k < 1 and t < 3:
+            k = 0
+            t = t + 1
+        out = out + t
+        i = i + 1
+    return out
+''', 'f', [('int', [0, 1, 2]), 'real'], ['analysis', 'constfold', 'simplify', 'loop', 'no_ref'])
+
+prog('size_assert_after_early_return', '''
+@fp.fpy
+def f(xs: list[fp.Real], x: fp.Real) -> list[fp.Real]:
+    if x > 0:
+        return xs
+    assert len(xs) == 3
+    return xs
+''', 'f', [('list', [2, 3]), 'real'], ['analysis', 'no_ref'])
+
+prog('size_zip_after_early_return', '''
+@fp.fpy
+def f(xs: list[fp.Real], ys: list[fp.Real], x: fp.Real) -> fp.Real:
+    if x > 0:
+        return x
+    acc = x
+    for a, b in zip(xs, ys):
+        acc = acc + a * b
+    return acc
+''', 'f', [('list', [1, 2]), ('list', [1, 2]), 'real'], ['analysis', 'no_ref'])
 
 
 def namespace():
